@@ -84,6 +84,44 @@ const c11Rule = "sources from the segment grammar (<= 4 KiB mostly, compressible
 	"in a guard arena: canaries in dst[len:cap] and before dst, capacity ending at a PROT_NONE page. Oracle: no panic/fault, canaries intact, 0 <= n <= len(dst), len(dst) >= bound => " +
 	"n > 0 and nil error, n > 0 => nil error and the reference decodes dst[:n] to the whole source. Non-trivial = 0 < len(dst) < bound with spare capacity; distinct by hash(source, len(dst), cap, compressor)."
 
+// TestC11Huge: sources larger than any frame block (the length of a 9 MiB literal run takes more than 32 KiB to write),
+// destinations around the source length, the compressed size and the bound.
+func TestC11Huge(t *testing.T) {
+	rec := stat.For("C11")
+	rec.SetRule(c11Rule)
+	datas := []gen.Data{
+		{Segs: []gen.Seg{{K: "rand", N: 9 << 20, S: 41}}},
+		{Segs: []gen.Seg{{K: "rand", N: 9 << 20, S: 42}, {K: "copy", N: 300, P: 5000, S: 1}, {K: "rand", N: 40, S: 3}}},
+		{Segs: []gen.Seg{{K: "text", N: 5 << 20, S: 43, P: 4}, {K: "rand", N: 5 << 20, S: 44}}},
+	}
+	if !thorough() {
+		datas = datas[:2]
+	}
+	i := 0
+	for _, d := range datas {
+		src := d.Build()
+		bound := lz4.CompressBlockBound(len(src))
+		for _, comp := range []string{"fast-obj", "hc-pkg"} {
+			i++
+			if i%nshards != shard {
+				continue
+			}
+			full := make([]byte, bound)
+			var bc blockComps
+			cn, _ := bc.compress(comp, 1, src, full)
+			for _, l := range []int{0, len(src) / 2, len(src) - 1, len(src), cn - 1, cn, bound - 1, bound, bound + 1} {
+				if l < 0 {
+					continue
+				}
+				cc := compCase{Data: d, Comp: comp, Depth: 1, DstLen: l, Spare: 64}
+				journal("C11", "C11/dstcontract", cc)
+				judge(t, "C11", "C11/dstcontract", cc, safelyC11(cc, src, rec))
+				rec.Class("huge-source")
+			}
+		}
+	}
+}
+
 func TestC11(t *testing.T) {
 	rec := stat.For("C11")
 	rec.SetRule(c11Rule)
